@@ -53,6 +53,7 @@ class World {
       o: (act, site) => self.optProbe(act, site),
       a: () => self.nextAct++,
       t: (v) => !!v || true,
+      c: (act, site) => self.condProbe(act, site),
       reg: (name, fn, kind) => { self.callables.push({ name, fn, kind }); if (self.callables.length > self.limits.registry) self.callables.shift() },
       regClass: (name, C, members) => { self.classes.push({ name, C, members }); if (self.classes.length > 12) self.classes.shift() },
       enter: (act, name) => { self.ev('enter', act); self.stat('activations') },
@@ -102,6 +103,15 @@ class World {
       } finally { this.depth--; this.liveProbe-- }
     }
     return this.token(act, site)
+  }
+
+  condProbe (act, site) {
+    const v = (this.visits.get(site) || 0) + 1
+    this.visits.set(site, v)
+    this.events++
+    const b = this.rngFor(site + 104729, v).chance(1, 2)
+    this.stat(b ? 'cond-true' : 'cond-false')
+    return b
   }
 
   optProbe (act, site) {
